@@ -20,6 +20,7 @@ RULE = (
 )
 BOUNDS = {
     "quick": {"max_unobserved_rows": 5, "samples": 3, "plates_per_sample": 3, "leaf_cap_per_item": retro.LEAF_CAP,
+              "row_order": "layouts of 3-4 (thorough 5) rows over >= 2 samples also with their rows interleaved across samples and reversed; permutation generator also with a plate named twice in force_include_plate_names",
               "fractions": retro.FRACTIONS,
               "row_pools": "two-column pools (mixed, rotated, combinations only) and a three-column pool for the pairwise / segregating generators (<= 4 rows)",
               "cli_holdout": "C11: prepare_retrospective_simulation --holdout-fraction f on layouts of 2-4 rows / >= 2 plates, 7 fractions, <= 2 deviations from the default answers",
